@@ -93,12 +93,22 @@ func (p *Program) ApplyComponent(name string, prog *Program, progFilePath string
 		duplicateName, times := findDuplicateSlot(comp.Slots)
 
 		if times > 0 {
+			// the fault sits where the slot is passed the first time
+			line := comp.Line()
+
+			for _, slot := range comp.Slots {
+				if slot.Name.Value == duplicateName {
+					line = slot.Line()
+					break
+				}
+			}
+
 			if name == "" {
-				return fail.New(prog.Line(), progFilePath, "parser",
+				return fail.New(line, progFilePath, "parser",
 					fail.ErrDuplicateDefaultSlotUsage, times, name)
 			}
 
-			return fail.New(prog.Line(), progFilePath, "parser",
+			return fail.New(line, progFilePath, "parser",
 				fail.ErrDuplicateSlotUsage, duplicateName, times, name)
 		}
 
@@ -107,11 +117,11 @@ func (p *Program) ApplyComponent(name string, prog *Program, progFilePath string
 
 			if len(slotStmts) == 0 {
 				if slot.Name.Value == "" {
-					return fail.New(prog.Line(), progFilePath, "parser",
+					return fail.New(slot.Line(), progFilePath, "parser",
 						fail.ErrDefaultSlotNotDefined, name)
 				}
 
-				return fail.New(prog.Line(), progFilePath, "parser",
+				return fail.New(slot.Line(), progFilePath, "parser",
 					fail.ErrSlotNotDefined, slot.Name.Value, name)
 			}
 
